@@ -19,7 +19,7 @@ import (
 	"github.com/flamego/flamego/verifharness/internal/rt"
 )
 
-const rule = "case = a valid route set biased to binds (regex segments with several binds, user groups, metacharacter literals, multi-parameter lists, match-alls) plus 1..12 requests built from route instances (values with %-escapes, malformed escapes, blanks, empty segments). " +
+const rule = "case = a valid route set biased to binds (regex segments with several binds, user groups, metacharacter literals, multi-parameter lists, match-alls) plus 1..12 requests built from route instances (values with %-escapes, malformed escapes, blanks, empty segments; one request in four also carries an over-escaped URL.RawPath spelling of the same path). " +
 	"For every dispatched request the values must satisfy a validity predicate against the route that actually won: some alignment of route segments to path segments and some split of each regex segment exists in which literals match literally, every piece matches its own expression in full and decodes (once) to the reported value; " +
 	"Leaf.URLPath(values, form) must rebuild the decoded path, and the Flame-level params must equal the tree-level ones plus route=<canonical text>. " +
 	"non-trivial = a case with a dispatched request whose winner has a bind and (>=2 binds in one segment, or a user group, or a metacharacter literal next to a bind, or an escape inside a captured piece, or a match-all spanning >=2 segments); distinct by case text"
